@@ -211,3 +211,49 @@ package gogu
 //@ loop 1
 //@   invariant 0 <= i && i <= len(slice)
 //@   invariant result == sumTo(elems(slice), soff(slice), i)
+
+//@ ufun sumByTo(f typeof(fn), a seq[T1], off int, n int) int
+//@ axiom sumByTo_def: forall a seq[T1], off int, n int :: { sumByTo(fn, a, off, n) } sumByTo(fn, a, off, n) == (n <= 0 ? 0 : sumByTo(fn, a, off, n-1) + call(fn, a[off+n-1]))
+
+//@ func gogu.SumBy
+//@   property C13 C16
+//@   arith ring
+//@   requires fn != nil
+//@   ensures result == sumByTo(fn, elems(slice), soff(slice), len(slice))
+//@ loop 1
+//@   invariant 0 <= $i && $i <= len(slice)
+//@   invariant acc == sumByTo(fn, elems(slice), soff(slice), $i)
+
+//@ func gogu.FindByKey
+//@   property C14 C16
+//@   requires fn != nil
+//@   ensures fresh(result) && result != nil
+//@   ensures forall k K :: k in result ==> k in m && call(fn, k) && result[k] == m[k]
+//@   ensures (exists k K :: k in m && call(fn, k)) ==> exists k K :: k in result
+//@   ensures forall k1 K, k2 K :: k1 in result && k2 in result ==> k1 == k2
+//@ loop 1
+//@   invariant fresh(result) && result != nil
+//@   invariant forall k K :: !(k in result)
+//@   invariant forall k K :: k in $visited ==> !call(fn, k)
+
+//@ func gogu.FindMinByKey
+//@   property C13 C16
+//@   ghost w int = 0
+//@   ensures len(mapSlice) == 0 || !(key in mapSlice[0]) ==> result1 != nil && result0 == zero
+//@   ensures len(mapSlice) > 0 && key in mapSlice[0] ==> result1 == nil && 0 <= w && w < len(mapSlice) && key in mapSlice[w] && mapSlice[w][key] == result0
+//@   ensures len(mapSlice) > 0 && key in mapSlice[0] ==> forall j int :: 0 <= j && j < len(mapSlice) && key in mapSlice[j] ==> result0 <= mapSlice[j][key]
+//@ loop 1
+//@   invariant 0 <= w && w < len(mapSlice) && key in mapSlice[w] && mapSlice[w][key] == min
+//@   invariant forall j int :: 0 <= j && j < $i && key in mapSlice[j] ==> min <= mapSlice[j][key]
+//@   ghost w = $i when key in mapSlice[$i] && mapSlice[$i][key] < pre(min)
+
+//@ func gogu.FindMaxByKey
+//@   property C13 C16
+//@   ghost w int = 0
+//@   ensures len(mapSlice) == 0 || !(key in mapSlice[0]) ==> result1 != nil && result0 == zero
+//@   ensures len(mapSlice) > 0 && key in mapSlice[0] ==> result1 == nil && 0 <= w && w < len(mapSlice) && key in mapSlice[w] && mapSlice[w][key] == result0
+//@   ensures len(mapSlice) > 0 && key in mapSlice[0] ==> forall j int :: 0 <= j && j < len(mapSlice) && key in mapSlice[j] ==> result0 >= mapSlice[j][key]
+//@ loop 1
+//@   invariant 0 <= w && w < len(mapSlice) && key in mapSlice[w] && mapSlice[w][key] == max
+//@   invariant forall j int :: 0 <= j && j < $i && key in mapSlice[j] ==> max >= mapSlice[j][key]
+//@   ghost w = $i when key in mapSlice[$i] && mapSlice[$i][key] > pre(max)
